@@ -83,3 +83,58 @@ CLAIMS["C12"] = dict(category="proof", technique=CONN_TECH,
          "dispatched == old + [(h, msg) for h in enum(snapshot of the handler set at entry)], each exactly once, whatever the callbacks do to the table (loop invariant, re-entrancy havoc at each call-out); undecodable payload => closed with ProtocolAPIError, no handler call; "
          "ping/time/disconnect handlers write exactly the matching response (disconnect: response before close, expected stop); the internal handlers are registered before the first hello/login exchange.",
     note=CONN_TB + " Genuine defect repaired: F5 (commit ed6ec9e).")
+
+# ---- frame helpers (Noise) -------------------------------------------------------------------------------------------------------
+NOISE_TB = (TB + " Noise: A-CRYPTO (ChaCha20-Poly1305 idealised: decrypt(nonce, c) returns p only if c == enc(key, nonce, p), else InvalidTag; the noiseprotocol state machine "
+            "is an assumed contract: write_message/read_message, cipher states with n = 0); A-LOOP (an exception escaping data_received makes the transport call connection_lost(exc)); "
+            "the connection is an opaque object as seen from the helper (process_packet / report_fatal_error recorded, may close the helper re-entrantly).")
+CLAIMS["C03"] = dict(category="proof", technique="function contracts + loop invariant on the real Noise helper (data_received with the parse spec nf_frames, the four frame handlers, __init__/_setup_proto/_send_hello_handshake), VCs from the AST discharged by z3 (cvc5 for unknowns); bounded native session against the real noise library as responder as stand-in for the stream induction",
+    text="Proved per call, for all buffers/chunks/frames: data_received hands every complete frame (0x01, 16-bit BE length) exactly once, in order, to the handler of the current state and retains exactly the partial tail; "
+         "_setup_proto uses Noise_NNpsk0_25519_ChaChaPoly_SHA256, initiator, the decoded 32-byte psk, prologue NoiseAPIInit\\0\\0; the hello+handshake frame has the documented shape; _handle_hello accepts iff selector 1 and (no name, no expected name, or equal names); "
+         "readiness is signalled only in _handle_handshake after read_message returned, with both nonces 0; _handle_frame is called only in state READY and delivers exactly (type, payload) of the plaintext the AEAD returns for the next nonce. "
+         "Bounded only (not counted): the whole-session statement for every segmentation (real responder, 782 segmentations in the quick tier).",
+    note=NOISE_TB)
+CLAIMS["C04"] = dict(category="other", technique="function contracts on the real Noise/plaintext helper error paths (_handle_error mapping, close, _handle_error_and_close, connection_lost, _handle_hello, _handle_handshake, _error_on_incorrect_preamble, _decode_noise_psk, __init__), z3; native replay of counter-models on the real helper",
+    text="All obligations but the two listed known findings (F11a/F11b: raw UnicodeDecodeError for non-UTF-8 name / explanation bytes) are discharged: InvalidTag maps to InvalidEncryptionKeyAPIError carrying the server name, reset during hello to HandshakeAPIError, "
+         "error frame to InvalidEncryptionKey/Handshake error by its text, empty hello / unknown selector to HandshakeAPIError, name mismatch to BadNameAPIError carrying the received name, plaintext preamble 0x01 to RequiresEncryptionAPIError else ProtocolAPIError; "
+         "each closes the helper and fails a pending readiness wait with the same error; a forged frame (InvalidTag) delivers nothing and does not consume the nonce; a key that is not base64 for exactly 32 bytes raises InvalidEncryptionKeyAPIError in __init__ before anything is written. "
+         "Level 'other' because of the open known findings; F10 (empty handshake frame) was repaired (commit eb8b26d).",
+    note=NOISE_TB)
+CLAIMS["C02"]["category"] = "other"
+CLAIMS["C02"]["technique"] = "function contracts + loop invariants on the real plaintext and Noise write paths and on send_messages, VCs from the AST discharged by z3; bounded native Noise write against a real responder as fall-back"
+CLAIMS["C02"]["text"] = ("_varuint_to_bytes == minimal base-128 encoding for all v >= 0 and returns an immutable bytes object (side condition of its lru_cache); plaintext write_packets: exactly one write of the concatenated "
+                         "zero byte + varint length + varint type + payload frames for every packet list; Noise write_packets: exactly one write of 0x01 + 16-bit BE ciphertext length + AEAD(key, nonce0+i, 16-bit type + 16-bit length + payload), "
+                         "nonces consecutive, under the precondition that the 16-bit fields can carry the numbers; send_messages hands exactly one batch (id from api.proto, serialised message) to the helper. "
+                         "Level 'other' because of one open known finding: nothing establishes that precondition for large payloads (F9, Noise length wrap at 65516 bytes).")
+CLAIMS["C14"]["category"] = "other"
+CLAIMS["C14"]["text"] += " Level 'other' because of the open known finding F7."
+CLAIMS["C15"]["category"] = "other"
+CLAIMS["C15"]["text"] += " Level 'other' because of the open known finding F8."
+
+# ---- client layer ------------------------------------------------------------------------------------------------------------------
+CLI_TB = (TB + " Client layer: the connection's API methods are represented by the contracts proved for them under C02/C05/C07/C09/C11 (send gate, one write, "
+          "subscribe/unsubscribe, collected responses); user callbacks return; <Model>.from_pb is an opaque conversion (C14's subject).")
+CLAIMS["C16"] = dict(category="proof", technique="function contracts on the real filters/adapters of client_callbacks.py and on the client's Bluetooth methods (symbolic messages, addresses, handles), VCs from the AST discharged by z3",
+    text="on_bluetooth_handle_message <=> same address and (connection response or same handle); on_bluetooth_message_types <=> class in the tuple and same address; notify data forwarded iff address and handle both match; the connect adapter acts only for its address and completes its wait at most once. "
+         "_send_bluetooth_message_await_response returns only a message of the requested class with its address and handle, raises BluetoothGATTAPIError only for an error response with its address and handle and BluetoothConnectionDroppedError only for a connection change of its address "
+         "(by the C11 contract the collected list is exactly the first message satisfying the real filter); bluetooth_gatt_start_notify leaves nothing subscribed on failure or cancellation; bluetooth_device_connect: on timeout unsubscribe, then the disconnect request for that address, then TimeoutAPIError; every failing exit leaves nothing subscribed.",
+    note=CLI_TB + " Genuine defect repaired: F14 (commit 82f8af6).")
+CLAIMS["C17"] = dict(category="proof", technique="function contracts on the real adapters (on_state_msg with a symbolic map key -> chunk list, whole-view frame) and on the subscribe_* methods, VCs from the AST discharged by z3",
+    text="on_state_msg: a state message of a class in the state table produces exactly one callback with <paired model>.from_pb(msg) and leaves the stream map untouched; a camera chunk is appended to its own key only (every other key unchanged); a done chunk produces exactly one CameraState whose data is the "
+         "concatenation of that key's chunks since its last completion and removes the key; other messages have no effect. The other adapters call the matching user callback exactly once with the converted value. Each subscribe_* method writes its request and registers exactly one handler for exactly the stated response type(s) in the same segment; "
+         "the voice-assistant unsubscribe removes every handler it registered and writes subscribe=False.",
+    note=CLI_TB + " Observation (not claimed): VoiceAssistantSubscriptionFlag.API_AUDIO is 1<<2 in model.py while api.proto's VoiceAssistantSubscribeFlag says 1.")
+CLAIMS["C18"] = dict(category="proof", technique="function contracts on every method of ReconnectLogic with a lock-aware cut-point rule (fields written only under asyncio.Lock are stable while the verified task holds it), ghost session flag, exact rational backoff table, z3",
+    text="A connection attempt (start_connection/finish_connection on the client) happens only with the lock held, not stopped, state DISCONNECTED at lock entry and no suspension between the stopped check and the attempt; after a failure tries = 100 for auth/encryption errors else +1 and the retry timer is armed at now + min(round(1.8^n), 60); "
+         "after an unexpected disconnect an immediate attempt, after an expected one a timer at now + 5 s (and no mDNS listening during the cool-down); async_update_records triggers at most one immediate attempt, only while accepting and not stopped, exactly for a PTR/A record with the device's names, then stops accepting; "
+         "_call_connect_once never cancels an attempt past CONNECTING and creates at most one task; on_connect / on_disconnect are called only under the lock and alternate; stop() sets the flag under the lock and leaves no timer, task or listener while it stays stopped.",
+    note=TB + " A-LIB(asyncio.Lock), A-ENV (the client calls the stop callback once per established session and refuses a new attempt while a session is alive: C07/C19), exact rationals for 1.8^n. Whole-history statements beyond the per-segment clauses are not decided.")
+CLAIMS["C19"] = dict(category="proof", technique="generated gate contract per public writing method of APIClient (precondition: no authenticated session) + life-cycle contracts, connection API represented by its proved contracts with a 'session alive' obligation at every write/subscribe, z3",
+    text="For each public method of APIClient that reaches a connection write (found by a call-graph scan of the class; execute_service and send_voice_assistant_event are not covered: parameter types without a model): called without an authenticated session it raises APIConnectionError (or rejects an argument that does not fit its field) and writes/subscribes nothing. "
+         "_get_connection returns only the live authenticated session; start_connection refuses exactly while a connection object is held and forgets a failed attempt; _on_stop clears the session before user code runs; disconnect() never leaves a closed connection referenced; the helpers that use self._connection directly write only to a live session.",
+    note=CLI_TB + " Genuine defects repaired: F3 (commit 1634ee7), F13 (commit 2fe6a1e).")
+CLAIMS["C20"] = dict(category="proof", technique="function contracts + loop invariants over uninterpreted lookup oracles with ghost call logs (z3 strings and sequences); bounded native enumeration as fall-back for the resolution loop",
+    text="host_is_name_part / address_is_local equal their string specifications for all strings; an IP literal maps to one AddrInfo (v4 verbatim; v6 without %scope, flowinfo 0, numeric scope else 0); async_resolve_host returns, in the order of the configured hosts, mdns(name) for bare/.local names if non-empty, the literal itself for literals, else the OS answer; "
+         "mDNS is asked exactly for the bare/.local names and the OS resolver exactly for the hosts nothing else resolved (so a literal causes no lookup of either kind); an empty overall result raises; _async_resolve_host_zeroconf puts all IPv6 results before all IPv4 results. "
+         "ZeroconfManager: created => the instance is library-created, a supplied instance is never marked created; async_close closes exactly library-created instances and forgets them; _async_zeroconf_get_service_info closes iff the call caused the creation, on every exit.",
+    note=TB + " A-LIB: mDNS / getaddrinfo / ipaddress.ip_address are deterministic oracles; int(str) modelled for decimal digit strings; _async_resolve_host_getaddrinfo's family mapping is not under contract.")
